@@ -4,8 +4,8 @@
     TRUNCATE checkpoint with its outcomes truncated / busy-partial / all-moved-not-truncated) +
     db.CheckpointManager.Checkpoint as its real steps (stat, salt, WALResetWatch.Check, compact from
     start, checkpoint, classify -> disarm | busy error | arm) + the store's segment Cancel/Close.
-    Exhaustive for 3 pages, <=4 writes, 2 readers started/stopped at every position (<=4 starts),
-    <=4 attempts (thorough; a smaller bound in the quick tier): RebuildOK (previous snapshot + captured
+    Exhaustive for 3 pages, <=4 writes, 2 readers started/stopped at every position (any number of
+    times), <=4 attempts (thorough; 2 pages, 3 writes, 3 attempts in the quick tier): RebuildOK (previous snapshot + captured
     segments = live database at every successful attempt), NoSegmentAfterFailure, ResetDetected,
     NoSpuriousReset, NoRecapture, ArmedSane, SegWellFormed.  One negative control per switch
     (DisarmOnTruncate, ArmOnAllMoved, ResumeFromArmed, ResetBySalt, CancelOnError, BusyKeepsState);
@@ -53,17 +53,17 @@ def _wrapped_counts(out):
 
 def model_check(ctx):
     if ctx.thorough:
-        r = vlib.tlc_mc(ctx, "Checkpoint", "Checkpoint_mc.cfg", workers=6, timeout=3300, heap="12g")
-    else:
-        r = vlib.tlc_mc(ctx, "Checkpoint", "Checkpoint_mc_quick.cfg", workers=3, timeout=900)
+        # the full bound without per-expression coverage (it costs ~25%); action coverage is read off the small bound
+        vlib.tlc_mc(ctx, "Checkpoint", "Checkpoint_mc.cfg", workers=6, timeout=3300, heap="12g", coverage=False)
+    r = vlib.tlc_mc(ctx, "Checkpoint", "Checkpoint_mc_quick.cfg", workers=ctx.pick(3, 1), timeout=900)
     w = dict(r["actions"])
     w.update(_wrapped_counts(r["out"]))      # actions reached through a wrapper definition (vlib does not parse those lines)
     dead = [a for a in ACTIONS if not w.get(a)]
     if dead:
         raise vlib.Undecided("vacuous actions in Checkpoint: %s" % dead)
     ctx.cov["tlc_models"][-1]["actions"] = w
-    ctx.cov["exhaustive_bound"] = ("3 pages (up to renaming), <=4 writes, 2 readers / <=4 reader starts at every position, <=4 attempts"
-                                   if ctx.thorough else "2 pages, <=3 writes, 2 readers / <=2 reader starts, <=3 attempts (quick tier)")
+    ctx.cov["exhaustive_bound"] = ("3 pages (up to renaming), <=4 writes, 2 readers started/stopped at every position any number of times, <=4 attempts"
+                                   if ctx.thorough else "2 pages, <=3 writes, 2 readers started/stopped at every position, <=3 attempts (quick tier)")
 
 
 def allpoints(ctx):
@@ -238,17 +238,26 @@ def replay(ctx, wit, cases):
     if not tot.get("wal_restarts") or not stot.get("wal_restarts"):       # observed on the WAL file itself, not through the code under test
         raise vlib.Undecided("SQLite never restarted the WAL in the replay (vacuous run)")
 
-    # trace validation: the traces are concatenated into `groups` files (one JVM each, started together)
-    groups = ctx.pick(1, 3)
-    files = []
-    allres = sres + res
-    for g in range(groups):
-        gp = os.path.join(ctx.scratch, "ckpt.group.%d.ndjson" % g)
-        with open(gp, "w") as f:
-            for i, (out, _) in enumerate(allres):
-                if i % groups == g:
-                    f.write(open(out).read())
-        files.append(gp)
+    # trace validation: the runs of all traces are dealt into `groups` files of equal size (one JVM each, started together)
+    groups = ctx.pick(1, 4)
+    files = [os.path.join(ctx.scratch, "ckpt.group.%d.ndjson" % g) for g in range(groups)]
+    outs = [open(f, "w") for f in files]
+    sizes = [0] * groups
+    for out, _ in sres + res:
+        block = []
+        for line in open(out):
+            if line.startswith('{"ev":"reset"') and block:
+                g = sizes.index(min(sizes))
+                outs[g].writelines(block)
+                sizes[g] += len(block)
+                block = []
+            block.append(line)
+        if block:
+            g = sizes.index(min(sizes))
+            outs[g].writelines(block)
+            sizes[g] += len(block)
+    for f in outs:
+        f.close()
     with cf.ThreadPoolExecutor(max_workers=groups) as ex:
         vals = list(ex.map(lambda a: _validate(ctx, a[1], "group %d" % a[0], selftest=(a[0] == 0)), enumerate(files)))
     flagged = {}
